@@ -291,6 +291,33 @@ pub fn run(args: &Args) {
         }
     }
 
+    // ---- 0c: what may count a FOR loop: a numeric variable of any type; never a string or a record
+    {
+        let pre = "TYPE Card\nValue AS INTEGER\nEND TYPE\nDIM c AS Card\nDIM fs AS STRING * 3\nDIM l AS LONG\n";
+        for (v, ok) in [("i%", true), ("k&", true), ("f!", true), ("d#", true), ("l", true), ("n", true), ("c", false), ("s$", false), ("fs", false)] {
+            for step in ["", " STEP 1", " STEP -1"] {
+                let src = format!("{}FOR {} = 1 TO 2{}\nPRINT 1\nNEXT\n", pre, v, step);
+                evaluations += 1;
+                sum.count(if ok { "for_counters_numeric" } else { "for_counters_not_numeric" });
+                match &run_program(&src, &RunOpts { budget: 5_000, ..Default::default() }) {
+                    Outcome::Ran(r) => {
+                        if !ok {
+                            sum.violation(ImplViolation { key: "for-counter-verdict".into(), input: src.replace('\n', " | "), expected: "Type mismatch from the checker".into(), observed: format!("accepted, then {:?}", r.end).chars().take(160).collect() });
+                        } else if let End::Err(13, ..) = r.end {
+                            sum.violation(ImplViolation { key: "type-mismatch-at-run-time:for".into(), input: src.replace('\n', " | "), expected: "no Type mismatch in an accepted program".into(), observed: format!("{:?}", r.end) });
+                        }
+                    }
+                    Outcome::LintError { msg, .. } => {
+                        if ok || family(msg) != "type" {
+                            sum.violation(ImplViolation { key: "for-counter-verdict".into(), input: src.replace('\n', " | "), expected: if ok { "accepted".into() } else { "an error of the type family".into() }, observed: msg.clone() });
+                        }
+                    }
+                    other => sum.violation(ImplViolation { key: "for-counter-verdict".into(), input: src.replace('\n', " | "), expected: "accepted or Type mismatch".into(), observed: format!("{:?}", verdict(other)) }),
+                }
+            }
+        }
+    }
+
     // ---- A/B: core programs, verdict against the Coq typing model
     let n_core = if args.thorough() { 1200 } else { 350 };
     for k in 0..n_core {
